@@ -159,16 +159,23 @@ def kinds(rep):
     fobj, node, _ = funcmode.load('beartype/_check/cls/call/calldatadecorfunc.py', 'BeartypeCallDecorFuncData.reinit')
     uni = M.Universe()
     for c in (tuple, type): uni.const(c)
-    SELF = z3.Const('self', M.Obj); CO = z3.Const('codeobj', M.Obj)
-    isco, isgen, isagen = z3.Bools('is_coro is_sync_generator is_async_generator')
-    def mk(b): return lambda ex, s, f, a, kw, w: [(s, VBool(b))]
+    SELF = z3.Const('self', M.Obj)
+    # the flag predicates are functions of the object they are asked about; the property speaks about the DECORATED callable's own code
+    # object (what inspect.iscoroutinefunction & co. report for it), not the code object of whatever it wraps
+    codeobj_of = z3.Function('codeobj_of', M.Obj, M.Obj)
+    p_co, p_gen, p_agen = (z3.Function(n, M.Obj, z3.BoolSort()) for n in ('is_coro', 'is_sync_generator', 'is_async_generator'))
+    W = z3.Const('func_wrappee', M.Obj); CO = codeobj_of(W)
+    isco, isgen, isagen = p_co(CO), p_gen(CO), p_agen(CO)
+    def mk(pred): return lambda ex, s, f, a, kw, w: [(s, VBool(pred(ex.obj(a[0] if a else kw['func']))))]
     def m_fresh(ex, s, f, a, kw, w): return [(s, VObj(M.fresh(getattr(f, 'o', f).__name__ if hasattr(getattr(f, 'o', None), '__name__') else 'callee')))]
-    def m_codeobj(ex, s, f, a, kw, w): return [(s, VObj(CO))]
+    def m_codeobj(ex, s, f, a, kw, w): return [(s, VObj(codeobj_of(ex.obj(a[0] if a else kw['func']))))]
     def m_noop(ex, s, f, a, kw, w): return [(s, VPy(None))]
-    cm = {mod.is_func_coro: mk(isco), mod.is_func_sync_generator: mk(isgen), mod.is_func_async_generator: mk(isagen), mod.get_func_codeobject_or_none: m_codeobj,
-          mod.get_func_codeobject: m_fresh, mod.unwrap_func_all_isomorphic: m_fresh, mod.get_hintable_pep649749_annotations: m_fresh, '.deinit': m_noop}
+    cm = {mod.is_func_coro: mk(p_co), mod.is_func_sync_generator: mk(p_gen), mod.is_func_async_generator: mk(p_agen),
+          mod.unwrap_func_all_isomorphic: m_fresh, mod.get_hintable_pep649749_annotations: m_fresh, '.deinit': m_noop}
+    import beartype._util.func.utilfunccodeobj as _co
+    for nm in ('get_func_codeobject_or_none', 'get_func_codeobject'): cm[getattr(_co, nm)] = m_codeobj
     ex = Exec(uni, dict(mod.__dict__), call_model=cm, name='reinit'); ex.fields_mode = True; ex.method_names = {'deinit'}
-    W = z3.Const('func_wrappee', M.Obj); CONF = z3.Const('conf', M.Obj)
+    CONF = z3.Const('conf', M.Obj)
     pre = (M.inst(CONF, uni.const(mod.BeartypeConf)), M.inst(W, uni.const(__import__('collections.abc').abc.Callable)), M.truthy(CO))
     outs = ex.run_function(node, St((), pre), (VObj(SELF), VObj(W), VObj(CONF)), {'cls_stack': VPy(None), 'func_wrapper': VPy(None)}, fobj)
     prover = discharge.Prover(uni.axioms())
@@ -279,6 +286,53 @@ def traces(rep, tier):
     rep.bounded.append(dict(kind='decorated vs undecorated traces (results, exceptions, finalisation log) on real generator objects (bounded stand-in, NOT counted as proved)', cases=cases, failing=len(bad),
                             bound=f'{len(BODIES)} async + {len(SBODIES)} sync bodies x all sequences of <= {maxlen} operations over {OPS}'))
 
+KIND_SRC = """
+import inspect, functools, asyncio, sys
+from beartype import beartype
+def plain(x: int) -> int: return x
+async def coro(x: int) -> int: return x
+def gen(x: int):
+    yield x
+async def agen(x: int):
+    yield x
+INNER = dict(plain=plain, coro=coro, gen=gen, agen=agen)
+def wrappers(inner):
+    @functools.wraps(inner)
+    def w_plain(*args, **kwargs): return inner(*args, **kwargs)
+    @functools.wraps(inner)
+    async def w_coro(*args, **kwargs): return inner(*args, **kwargs)
+    @functools.wraps(inner)
+    def w_gen(*args, **kwargs):
+        yield inner(*args, **kwargs)
+    @functools.wraps(inner)
+    async def w_agen(*args, **kwargs):
+        yield inner(*args, **kwargs)
+    return dict(plain=w_plain, coro=w_coro, gen=w_gen, agen=w_agen)
+def kind(f): return (inspect.iscoroutinefunction(f), inspect.isgeneratorfunction(f), inspect.isasyncgenfunction(f))
+bad = []
+for iname, inner in INNER.items():
+    cands = dict(wrappers(inner)); cands['direct'] = inner
+    for wname, w in cands.items():
+        try: d = beartype(w)
+        except Exception as e: continue      # functools.wraps copies the annotations: a generator wrapper annotated `-> int` is rightly refused at decoration time
+        if kind(d) != kind(w): bad.append((iname, wname, f'kind {kind(w)} became {kind(d)}'))
+print(bad)
+sys.exit(1 if bad else 0)
+"""
+def kinds_bounded(rep):
+    """bounded: a decorated callable is of the same kind as the callable it decorates, also when that callable is a functools.wraps
+    wrapper (of any kind) around a callable of another kind"""
+    import subprocess, sys
+    from pyvc import VERIF, REPO
+    src = f"import sys, os\nos.environ['VERIF_REPO'] = {REPO!r}\nsys.path.insert(0, {VERIF!r})\nimport pyvc; pyvc.use_repo()\n" + KIND_SRC
+    p = subprocess.run([sys.executable, '-c', src], capture_output=True, text=True, timeout=120)
+    if p.returncode not in (0, 1): rep.error('C08 kinds_bounded harness: ' + (p.stdout + p.stderr)[-500:]); return
+    if p.returncode == 1:
+        rep.add('C08.kinds.bounded.kind_preserved', 'refuted', backend='runtime-contract', where=p.stdout.strip()[-300:], solver_output='bounded run-time contract (not a proof)',
+                replay=dict(reproduced=True, detail=p.stdout.strip()[-300:]), replay_script=("os.environ['VERIF_REPO'] = %r\nimport pyvc; pyvc.use_repo()\n" % REPO) + KIND_SRC)
+    rep.bounded.append(dict(kind='kind of the decorated callable == kind of the callable it decorates (bounded stand-in, NOT counted as proved)', cases=20, failing=int(p.returncode == 1),
+                            bound='4 inner kinds x (direct + 4 kinds of functools.wraps wrapper)'))
+
 def main(tier, seed):
     rep = report.Report('C08', tier, seed, 'proof', f'./check C08 --tier {tier}')
     for fn in (relay, kinds):
@@ -286,6 +340,8 @@ def main(tier, seed):
         except Exception: rep.error(f'C08 {fn.__name__}: ' + traceback.format_exc()[-2500:])
     try: traces(rep, tier)
     except Exception: rep.error('C08 traces: ' + traceback.format_exc()[-2500:])
+    try: kinds_bounded(rep)
+    except Exception: rep.error('C08 kinds_bounded: ' + traceback.format_exc()[-1500:])
     files = ['beartype/_data/check/code/pep/datacodepep525.py', 'beartype/_data/check/code/pep/datacodepep342.py', 'beartype/_check/cls/call/calldatadecorfunc.py', 'beartype/_data/check/code/func/datacodefuncwrap.py']
     rep.functions = ['wrapper text generated for an async generator function (CODE_PEP525_RETURN_CHECKED as instantiated by the real decorator; mode G)', 'BeartypeCallDecorFuncData.reinit (mode F)'] + [f'{p}@{report.src_hash(p)}' for p in files]
     from pyvc import model as M
